@@ -403,7 +403,7 @@ def get_matrix_interp1d3(x, xi):
     # @pysnooper.snoop()
     def poly_i(i):
         tmp = zeros
-        for j in range(i - 1, i + 3):
+        for j in range(i - 2, i + 2):
             if j < 0 or j > N - 1:
                 continue
             r = ones
